@@ -164,12 +164,19 @@ func checkC06(c *Check) {
 			if !ok || bo.Op != token.EQL {
 				continue
 			}
+			// the operand that is the slot value of this allocation (the other one is the reserved descriptor)
 			var other, cur ssa.Value
-			if isCursor(bo.X) {
+			tgt := stripConv(e.arg(1))
+			switch {
+			case stripConv(bo.X) == tgt:
 				other, cur = bo.Y, bo.X
-			} else if isCursor(bo.Y) {
+			case stripConv(bo.Y) == tgt:
 				other, cur = bo.X, bo.Y
-			} else {
+			case isCursor(bo.X):
+				other, cur = bo.Y, bo.X
+			case isCursor(bo.Y):
+				other, cur = bo.X, bo.Y
+			default:
 				continue
 			}
 			// the value the loop has stepped past the reserved descriptors is the very value used as the slot:
